@@ -1,4 +1,5 @@
-import Fuota.Lemmas.RingRecover
+import Fuota.Lemmas.RingPairStart
+import Fuota.Props.C05
 /-!
 # C13 — recovery and cancel leave at most the resumable session pending
 
@@ -310,6 +311,61 @@ theorem recover_idempotent (g : Geom) (hs : Hdrs) :
   simp only at key ⊢
   rw [key.1, key.2]
   rfl
+
+/-! ## which session recovery returns, in every reachable state -/
+
+/-- every state reachable from the blank ring (two-pass remediation, no sequence wrap-around) satisfies the second
+    invariant bundle `Inv2`: attempt ids consistent with sequence numbers (`SkelOK`), `live` = exactly the in-progress
+    firmware / parity pairs written by one start (`LiveOK`), `must` and the RAM session are live and are the two newest
+    headers (`TopOK`), and an in-progress parity header whose firmware partner was erased is (almost) the oldest
+    header of the ring (`Orph`, the `PairInv` of the design). -/
+theorem reachable_inv2 (c : Cfg) (hn : 4 ≤ c.n) (hp : c.pinnedRemediation = false) {s : State}
+    (h : C05.Reachable c s) : Inv2 c s := by
+  induction h with
+  | init => exact inv2_init c
+  | step hr hroom hstep ih => exact inv2_preserved c hn hp _ ih (C05.reachable_ringInv c hn hr) hroom _ hstep
+
+/-- **`pairInv_preserved`**: every transition of the machine preserves `Inv2` — for every `N ≥ 4`, with the two-pass
+    remediation and the erase-newer-first order of `start_update` that the machine models. -/
+theorem pairInv_preserved (c : Cfg) (hn : 4 ≤ c.n) (hp : c.pinnedRemediation = false) (s : State) (h : Inv2 c s)
+    (hinv : RingInv c.n s.hs) (hroom : SeqRoom 2 s.hs) : ∀ t ∈ succs c s, Inv2 c t.2 :=
+  inv2_preserved c hn hp s h hinv hroom
+
+/-- **`no_chimera`**: in every reachable state, the session recovery returns consists of two slots written by one
+    and the same start attempt (the ghost `att`). -/
+theorem no_chimera (c : Cfg) (hn : 4 ≤ c.n) (hp : c.pinnedRemediation = false) {s : State} (h : C05.Reachable c s)
+    {f p : Nat} (hr : (recover c.geom s.hs).1 = some (f, p)) :
+    ∃ k, s.att.getD f none = some k ∧ s.att.getD p none = some k :=
+  (recover_some_of_inv hn (C05.reachable_ringInv c hn h) (reachable_inv2 c hn hp h) hr).2.1
+
+/-- **`recover_iff_live_session`**, first half: in every reachable state, recovery only ever returns a session for an
+    update that was successfully started and neither completed nor cancelled since (`live`); and if the latest start
+    succeeded and is neither completed nor cancelled (`must`), the returned session is that one. -/
+theorem recover_only_live_session (c : Cfg) (hn : 4 ≤ c.n) (hp : c.pinnedRemediation = false) {s : State}
+    (h : C05.Reachable c s) {r : Nat × Nat} (hr : (recover c.geom s.hs).1 = some r) :
+    r ∈ s.live ∧ ∀ m, s.must = some m → m = r := by
+  obtain ⟨h1, _, h3⟩ := recover_some_of_inv hn (C05.reachable_ringInv c hn h) (reachable_inv2 c hn hp h) hr
+  exact ⟨h1, h3⟩
+
+/-- **`recover_iff_live_session`**, second half: in every reachable state, if the latest start attempt succeeded and
+    that update has been neither completed nor cancelled, recovery returns exactly that session. `GeomOK`: the
+    geometry the machine starts updates with passes `is_reasonably_sized` and its parity capacity is at most 2048
+    (C07's precondition `L ≥ 1` is part of the parsed header and does not matter at header level). -/
+theorem recover_returns_latest (c : Cfg) (hn : 4 ≤ c.n) (hp : c.pinnedRemediation = false) (hg : GeomOK c.geom)
+    {s : State} (h : C05.Reachable c s) {m : Nat × Nat} (hm : s.must = some m) :
+    (recover c.geom s.hs).1 = some m :=
+  recover_must_of_inv hg (reachable_inv2 c hn hp h) hm
+
+/-- both halves as one equivalence on the latest start: recovery returns `m` and `m` is the remembered latest
+    successful start, iff the latest start succeeded and is neither completed nor cancelled (when it is remembered) -/
+theorem recover_iff_live_session (c : Cfg) (hn : 4 ≤ c.n) (hp : c.pinnedRemediation = false) (hg : GeomOK c.geom)
+    {s : State} (h : C05.Reachable c s) (m : Nat × Nat) (hm : s.must = some m) (r : Option (Nat × Nat)) :
+    (recover c.geom s.hs).1 = r ↔ r = some m := by
+  rw [recover_returns_latest c hn hp hg h hm]
+  exact ⟨fun e => e.symm, fun e => e.symm⟩
+
+/-- the default geometry of the machine passes the sanity checks -/
+example : GeomOK {} := ⟨rfl, by decide⟩
 
 /-! ## the remediation order matters: witness for the single-pass remediation -/
 
